@@ -17,8 +17,9 @@ WATER_BOUNDS = {
              "PaddyTop/PaddyPan (Ksat 15 over 2), SandyLoam over a 0.5 mm/day clay, a fast-draining 30 mm/day layer; thickness 0.1-0.2 m; evaporation: first 1 of the "
              "20 sub-daily steps with the true sub-step demand, evaporation depth from {0.15, 0.237, 0.3} m, layer expansion cut after 2 iterations; "
              "transpiration: rooting depth from a 2-point grid per profile, degree days from a 3-point grid, cold-stress/ageing regimes enumerated",
-    "thorough": "2 and 3 compartments, all 15 built-in soils plus 4 layered and 2 uneven-thickness profiles; evaporation: first 1 and 2 sub-steps, 5 evaporation depths, "
-                "full (unpartitioned) regime for one configuration; transpiration: 3 rooting depths, 5 degree-day values, 4 crops",
+    "thorough": "2 and 3 compartments, all 15 built-in soils plus 4 layered and 2 uneven-thickness profiles; evaporation: first sub-step, 4 evaporation depths, 3 profiles, "
+                "full (unpartitioned) regime for one configuration; infiltration: 2 compartments only (3 take > 1 h per configuration); drainage: 3 compartments for 2 profiles; "
+                "transpiration: 3 rooting depths, 5 degree-day values, 4 crops",
 }
 
 PROPS = {}
@@ -69,7 +70,7 @@ prop("C09", bounds={"quick": "<= 3 successive run_model calls, each num_steps <=
                     "thorough": "<= 4 calls, num_steps <= 8, T <= 12"},
      outside=["equality of the pandas tables is implied through equality of the arguments reaching the output conversion", "process_outputs=True"],
      budget_s={"quick": 300, "thorough": 3600})
-prop("C12", bounds=WATER_BOUNDS, cfg_limit={"quick": 5},
+prop("C12", bounds=WATER_BOUNDS, cfg_limit={"quick": 5, "thorough": 12},
      outside=["profiles deepened for deep-rooted crops (pandas code)", "weather matrix for thermal-time crops (reset_initial_conditions masks a copy; not encoded)"],
      budget_s={"quick": 1500, "thorough": 14400})
 prop("C13", bounds={"all": "real irrigation() with every parameter symbolic (SMT x4, AppEff, MaxIrr, MaxIrrSeason, interval 1..60, schedule, depth), methods 0-5, growth stages enumerated"},
@@ -81,7 +82,7 @@ prop("C14", bounds={"quick": "Maize (Champion) and Wheat (Tunis), methods 0/1, c
 prop("C15", bounds={"quick": "11 of the 120 column orders + extra columns (first/middle/last/with gaps), offset, shuffled, date and 5-based indexes, leading/trailing rows; 4 probed days",
                     "thorough": "all 120 column orders"},
      outside=["thermal-time crops (their calendar is computed by pandas code from named columns)"], budget_s={"quick": 300, "thorough": 1800})
-prop("C16", bounds=WATER_BOUNDS, cfg_limit={"quick": 5},
+prop("C16", bounds=WATER_BOUNDS, cfg_limit={"quick": 5, "thorough": 12},
      outside=["initialisation-time behaviour: date parsing, leap-day planting dates, windows without seasons, catalogue-wide construction of Soil/Crop (pandas/str code)",
               "the claim is: no step of a run can raise from a state within INV for the enumerated switch values (ETadj 0/1, zero-height bunds, methods 0-5, water table, ...)"],
      budget_s={"quick": 1800, "thorough": 14400})
